@@ -389,7 +389,7 @@ func ruleRenderSize(w *World, r *Report, pfx string) {
 		return
 	}
 	bad := ""
-	n, _ := w.enumPaths(render, pathOpts{InlineDepth: 0}, func(p *Path) {
+	n, _ := w.enumPaths(render, pathOpts{InlineDepth: 2, Inline: func(_ ssa.CallInstruction, c *ssa.Function) bool { return c.Pkg == w.Mpb && c != fl }}, func(p *Path) {
 		if bad != "" || p.Exit != "return" {
 			return
 		}
